@@ -178,6 +178,9 @@ func checkC13(c *Ctx) {
 	scens := []scen{{"pair-setup", 0}, {"pair-setup", 1}, {"pair-setup", 2}, {"pair-verify", 0}, {"pair-verify", 1},
 		{"json-verified", 0}, {"json-unverified", 0}, {"pairings-verified", 0}}
 	c13Unstorable(c)
+	c13ReconnectDuringClose(c)
+	c13StalledReader(c)
+	c13HugeBody(c)
 	if c.NumViolations() > 0 {
 		return // the in-process streams below share the storage lock with this process
 	}
